@@ -700,3 +700,121 @@ Example C16_example_tp_applies : exists D' gD gS,
         (ValueTPNA.tpN_dimS 20 10 Value.vx_s (ValueTPN.vx_ops [1; 3])) ValueTPN.vx_tblS3 gS rho'.
 Proof. exact ValueTPN.tpN_example_thm. Qed.
 Print Assumptions C16_example_tp_applies.
+
+(* [ext-C16T] ---- TTNO path: TTNDO.ttno_expectation_value(operator) against C04's three-layer <psi|H|psi> ------------------------ *)
+From PTN Require Contr.ThreeLayerValue TTNDO.ValueTTNO TTNDO.ValueTTNOGen TTNDO.ValueTTNOProofs.
+
+(* the value of a closed glued diagram whose glued pairs are known only as UNORDERED pairs (what C16_expectation_closed gives):
+   if both wires of every pair have the same dimension and the paired wires are pairwise distinct, the value is the sum
+   over the bound wires and one index per pair of the product of the atoms, in ANY orientation G of the pairs *)
+Theorem C16_gvalue_unoriented : forall (R : Type) (zero one : R) (add mul : R -> R -> R),
+  Sem.comm_semiring zero one add mul ->
+  forall (wires_of : nat -> list nat) (dim : nat -> nat) (tbl : nat -> list nat -> R)
+         (g : Blocks.garr) (A : list nat) (L : list nat) (G : list (nat * nat)) (rho : nat -> nat),
+  Permutation.Permutation (Blocks.gatoms g) A -> Permutation.Permutation (Blocks.gbnd g) L ->
+  Permutation.Permutation (map Blocks.norm_pair (Blocks.gglue g)) (map Blocks.norm_pair G) ->
+  NoDup (map fst G ++ map snd G) ->
+  (forall p, In p G -> dim (fst p) = dim (snd p)) ->
+  TensorProdBridge.gvalue R zero one add mul wires_of dim tbl g rho
+  = Sem.sum_bnd R zero add dim (L ++ map fst G)
+      (fun r => Sem.atoms_val R one mul wires_of tbl A (TensorProdBridge.glue_asg G r)) rho.
+Proof. exact ValueTTNOGen.gvalue_norm_unoriented. Qed.
+Print Assumptions C16_gvalue_unoriented.
+
+(* STEP 1, the fused flat form of the network side.  d structurally the network from_ttns builds from s (ttndo_of), op a
+   well-formed operator store on the state's tree (wf_three: any child orders; wf_ttndo3: the hypothesis of
+   C16_expectation_closed), reverse_ket_id o ket_id = id on the tree, the operator's wires above the network's, any world
+   that reads the network's and the operator's atoms on their own wires and gives both wires of every glued physical pair
+   the same dimension: ttndo_ttno_expectation succeeds with a closed diagram whose value is
+     ttndo_three_flat = SUM over the three wires of the artificial root, the three copies (ket image, operator, bra image)
+                        of every tree edge and one index per glued pair (ket open ~ operator input, operator output ~ bra open)
+                        of (artificial root's tensor) . PROD over the nodes of (ket image)(operator tensor)(bra image),
+   every tensor read through the gluing; the operator's node tensors are arbitrary (inner sums included) *)
+Theorem C16_ttno_expectation_flat : forall (R : Type) (zero one : R) (add mul : R -> R -> R),
+  Sem.comm_semiring zero one add mul ->
+  forall (woff : nat) (im : Contr.idmaps) (d s op : Store.store) (r0 : nat) (ts : Closed.rt) (k : nat)
+         (tblD : nat -> list nat -> R) (WrD : nat -> list nat) (DmD : nat -> nat),
+  InvSem.wfs op -> Value.ttndo_of im d s r0 ts k -> Closed.wf_three woff s op ts ->
+  Contr.wf_ttndo3 im d op r0 (Value.rmap (Contr.im_kid im) ts) ->
+  (forall n, In n (Closed.rnodes ts) -> Contr.im_rev im (Contr.im_kid im n) = n) ->
+  ThreeLayerValue.op_above (Store.next_wire d) op ->
+  (forall a, In a (Inv.total_atoms d) -> WrD a = Sem.atom_wires d a) ->
+  (forall a, In a (Inv.total_atoms op) -> WrD a = Sem.atom_wires op a) ->
+  (forall p, In p (ValueTTNO.glueD3 im d op ts) -> DmD (fst p) = DmD (snd p)) ->
+  exists g, Contr.ttndo_ttno_expectation im d op = Some g /\ Blocks.gaxes g = [] /\
+    forall rho, TensorProdBridge.gvalue R zero one add mul WrD DmD tblD g rho
+                = ValueTTNO.ttndo_three_flat R zero one add mul WrD DmD tblD im d op r0 ts rho.
+Proof. exact ValueTTNOProofs.D_flat. Qed.
+Print Assumptions C16_ttno_expectation_flat.
+
+(* STEPS 2 + 3, THE VALUE THEOREM FOR THE TTNO PATH.  TTNDO.ttno_expectation_value(operator) (model Contr.ttndo_ttno_expectation:
+   contraction order, cache dictionary, contract_any_node_environment_but_one with the id_trafo helpers, _contract_ttno_root,
+   _contract_final_block) against C04's three-layer <psi|H|psi> (Blocks.expectation_value on the state, the operator and the
+   conjugate copy).  For every wfs state store s with one open leg per node, every tree (ket_tree s = Some ts), every k >= 1,
+   every wfs operator store op with two open legs per node on the same tree (same root, same parents, the children of every
+   node in ANY order), read by BOTH sides (its wires above the state's and the network's, below woff), over every commutative
+   semiring: if d is structurally the network from_ttns builds (ttndo_of; additionally the bra images' open legs have the
+   state's physical dimensions), the atom tables satisfy the build contracts of C16_trace_value, the operator's atoms hold
+   the same entries in both tables, the operator's physical legs have the state's physical dimensions, and d with op satisfy
+   the (decidable, Contr.ttndo_wf3b) hypothesis of C16_expectation_closed with reverse_ket_id o ket_id = id on the tree, then
+   both programs succeed with closed diagrams of EQUAL VALUE.  Worlds: any (WrD, DmD) reading the network's and the operator's
+   atoms and wires / any (WrS, DmS) reading the state's, the operator's and the conjugate copy's (e.g. ValueTTNO.d3_world /
+   d3_dim and ThreeLayerValue.three_world / three_dim, used in the example).  Proof: the orientation-free normal form
+   (C16_gvalue_unoriented) and C04_fuse_items give the network side as ttndo_three_flat (C16_ttno_expectation_flat); the summed
+   wires are renamed pairwise (ValueTTNO.wire_pairs3: operator wires with themselves, the root's second pair with the
+   conjugate copy's physical wire); the build contracts node by node; the artificial root and the padding give the factor 1;
+   the state side is C04_ttno_expectation_value_flat with C04_wf_three_of_wf. *)
+Theorem C16_ttno_expectation_value : forall (R : Type) (zero one : R) (add mul : R -> R -> R),
+  Sem.comm_semiring zero one add mul ->
+  forall (woff aoff : nat) (im : Contr.idmaps) (d s op : Store.store) (r0 : nat) (ts : Closed.rt) (k : nat)
+         (tblD tblS : nat -> list nat -> R) (WrD WrS : nat -> list nat) (DmD DmS : nat -> nat),
+  InvSem.wfs s -> TensorProdBridge.one_open s -> InvSem.wfs op -> ThreeLayerValueProofs.two_open op -> Store.root op = Store.root s ->
+  (forall kk n, Store.aget kk (Store.nodes s) = Some n ->
+     exists on, Store.aget kk (Store.nodes op) = Some on /\ Store.parent on = Store.parent n /\
+                Permutation.Permutation (Store.children on) (Store.children n)) ->
+  0 < woff -> Store.next_wire s <= woff -> Store.next_atom s <= aoff ->
+  ThreeLayerValue.op_above (Store.next_wire s) op -> ThreeLayerValue.op_above (Store.next_wire d) op -> Store.next_wire op <= woff ->
+  Closed.ket_tree s = Some ts -> 1 <= k ->
+  Value.ttndo_of im d s r0 ts k ->
+  Value.build_contracts R zero one add mul woff aoff im d s r0 ts k tblD tblS ->
+  Contr.wf_ttndo3 im d op r0 (Value.rmap (Contr.im_kid im) ts) ->
+  (forall n, In n (Closed.rnodes ts) -> Contr.im_rev im (Contr.im_kid im n) = n) ->
+  (forall n, In n (Closed.rnodes ts) -> Store.wdim d (Closed.open_wire d (Value.bid im n)) = Store.wdim s (Closed.open_wire s n)) ->
+  (forall n, In n (Closed.rnodes ts) -> DmS (Closed.in_wire op n) = Store.wdim s (Closed.open_wire s n) /\
+                                        DmS (Closed.out_wire op n) = Store.wdim s (Closed.open_wire s n)) ->
+  (forall a, In a (Inv.total_atoms d) -> WrD a = Sem.atom_wires d a) ->
+  (forall a, In a (Inv.total_atoms op) -> WrD a = Sem.atom_wires op a) ->
+  (forall w, w < Store.next_wire d -> DmD w = Store.wdim d w) ->
+  (forall a, In a (Inv.total_atoms s) -> WrS a = Sem.atom_wires s a) ->
+  (forall a, In a (Inv.total_atoms op) -> WrS a = Sem.atom_wires op a) ->
+  (forall a, a < Store.next_atom s -> WrS (aoff + a) = map (Nat.add woff) (Sem.atom_wires s a)) ->
+  (forall w, w < Store.next_wire s -> DmS w = Store.wdim s w) ->
+  (forall w, w < Store.next_wire s -> DmS (woff + w) = Store.wdim s w) ->
+  (forall n to w, Store.aget n (Store.tensors op) = Some to -> In w (Store.axes to ++ Store.bnd to) -> DmD w = DmS w) ->
+  (forall a idx, In a (Inv.total_atoms op) -> tblD a idx = tblS a idx) ->
+  exists gD gS,
+    Contr.ttndo_ttno_expectation im d op = Some gD /\ Blocks.expectation_value woff aoff s op = Some gS /\
+    Blocks.gaxes gD = [] /\ Blocks.gaxes gS = [] /\
+    forall rho rho',
+      TensorProdBridge.gvalue R zero one add mul WrD DmD tblD gD rho = TensorProdBridge.gvalue R zero one add mul WrS DmS tblS gS rho'.
+Proof. exact ValueTTNOProofs.ttno_value. Qed.
+Print Assumptions C16_ttno_expectation_value.
+
+(* non-vacuity, both sides evaluated: a three-node state (bond dimensions 2, 2; physical dimensions 2, 2, 3), its network for
+   root bond dimensions 1, 2, 3 (3 exceeds every bond: the padding is exercised), an operator on the same tree with the root's
+   children in the OTHER order (bond dimensions 2 and 1), arbitrary NON-symmetric integer tensors (two pairs of transposed
+   entries shown).  Every executable hypothesis evaluates to true (ValueTTNO.tx_hyp: value_hyp, ttndo_wf3b, C04's three_ok,
+   wfsb of the operator, the range separations, the build contracts, the dimension conditions, reverse_ket_id o ket_id = id),
+   and the diagram of ttndo_ttno_expectation (k = 1, 2) and C04's three-layer diagram evaluate (vm_compute) to the same integer *)
+Example C16_example_ttno_hyp :
+  Closed.ket_tree ValueTTNO.tx_s = Some ValueTTNO.tx_ts /\
+  ValueTTNO.tx_hyp 1 = true /\ ValueTTNO.tx_hyp 2 = true /\ ValueTTNO.tx_hyp 3 = true.
+Proof. exact ValueTTNOProofs.tx_example_hyp. Qed.
+Print Assumptions C16_example_ttno_hyp.
+
+Example C16_example_ttno_numbers :
+  (Value.vx_tblS 20 [0; 1; 0; 1], Value.vx_tblS 20 [0; 1; 1; 0], Value.vx_tblS 22 [0; 0; 1], Value.vx_tblS 22 [0; 1; 0]) = (0, 2, -3, -1)%Z /\
+  ValueTTNO.tx_S = Some 42108%Z /\ ValueTTNO.tx_D 1 = Some 42108%Z /\ ValueTTNO.tx_D 2 = Some 42108%Z.
+Proof. exact ValueTTNOProofs.tx_example_numbers. Qed.
+Print Assumptions C16_example_ttno_numbers.
+(* [/ext-C16T] *)
